@@ -91,6 +91,10 @@ var metaBlocks = [][]string{
 	{";strategy", ";strategy"},
 }
 
+// comment lines between the instructions: plain ones, metadata keywords in the middle of the file, multi-byte text
+var midComments = []string{"; a comment, with 1 comma", "; a comment, with 1 comma", "; a comment, with 1 comma", ";redcode", ";redcode-94 verbose", ";name another name",
+	";author again", ";strategy goes on", ";assert 1", "; \ufffd replacement character, \u00e9\u6f22\U0001f600", ";;;", "; mov.i $ 0, $ 1"}
+
 var lastComments = []string{"; the end", "; the end", ";", ";strategy", ";name", ";author", ";strategy ", ";assert 1"}
 
 var PerturbNames = []string{"case", "blanks", "crlf", "comment-lines", "blank-lines", "trailing-comments", "metadata", "no-final-newline", "last-line-comment", "no-end", "long-lines"}
@@ -165,10 +169,13 @@ func Perturb(lines []string, set int, d Dialect, r Rand) string {
 			out = append(out, strings.Repeat(" ", r.Intn(3)))
 		}
 		if set&PCommentLines != 0 && r.Intn(3) == 0 {
-			out = append(out, "; a comment, with 1 comma")
+			out = append(out, midComments[r.Intn(len(midComments))])
 		}
 		if set&PTrailing != 0 && r.Intn(2) == 0 {
 			l += " ; trailing " + strconv.Itoa(i)
+			if r.Intn(8) == 0 {
+				l += " \ufffd \u00e9\u6f22" // a genuine U+FFFD and other multi-byte text
+			}
 		}
 		if set&PLongLines != 0 && r.Intn(3) == 0 {
 			n := longLens[r.Intn(len(longLens))]
